@@ -8,12 +8,17 @@ E1 (bounded exhaustive product).  Enumerated on the real implementation:
   setPhaseOffset too), `QAM(M)` (M = 4^1..4^6);
 * per object: the emitted table (M distinct finite points, unit mean energy,
   M, K), EVERY index 0..M-1 through modulate/demodulate in every presentation
-  (0-d array, numpy scalar, Python int, (M,), (2,M/2), (M/2,2,1), int32, Python
-  list), the invalid indexes, and a finite family of received samples (every
-  constellation point, probes either side of every decision boundary found by
-  the oracle, a 65x65 lattice, rays towards 0 and infinity) presented as 1-D,
-  2-D and 0-d arrays, each compared with an independent brute-force
-  nearest-point search;
+  of the alphabet below, the invalid indexes, and a finite family of received
+  samples (every constellation point, probes either side of every decision
+  boundary found by the oracle, a 65x65 lattice, rays towards 0 and infinity),
+  each compared with an independent brute-force nearest-point search;
+* presentations (index arrays AND received-sample arrays; the element at
+  logical position p of the input must decide position p of the output):
+  C-contiguous 1-D/2-D/3-D, read-only, transposed (F-contiguous) 2-D/3-D,
+  Fortran-ordered copy, swapped axes, strided views x[:, ::2] / x[::3] of a
+  larger buffer, negative strides, 0-d, empty (0,), (0,k), (2,0); indexes also
+  as int8..uint64/intp arrays, numpy scalars, Python ints and (nested) Python
+  lists; samples also as complex64 (float64/float32 for BPSK);
 * every integer cardinality 0..4100 through both constructors.
 
 Nothing is sampled: the seed only rotates the irrational offset of the lattice,
@@ -33,10 +38,14 @@ LEVEL = "exploration"
 ENGINE = "E1 exhaustive product enumerator"
 RULE = ("objects: BPSK, QPSK(+setPhaseOffset), PSK(2^1..2^10, 8 offsets) constructed and after "
         "setPhaseOffset(8 offsets) from every constructed offset, QAM(4^1..4^6); per object every "
-        "index 0..M-1 in 8 presentations, 4 invalid indexes alone and mixed, and the sample family "
+        "index 0..M-1 in ~30 presentations (contiguous / transposed / Fortran / swapped-axes / strided / "
+        "negative-stride / read-only / empty arrays, 8 integer dtypes, scalars, lists), 4 invalid indexes "
+        "alone and mixed, and the sample family "
         "{constellation points, midpoint +-delta*n (delta/dmin in 1e-11,1e-9,1e-6,1e-3,0.25 [thorough: + 1e-10,1e-8,1e-4]; "
         "tangential shifts 0,+-0.4 dmin) of every Gabriel-adjacent pair, 65x65 [129x129] lattice over "
-        "[-1.6,1.6]^2, 64 [256] rays x radii 1e-12,10,1e6} as 1-D/2-D/0-d arrays against brute-force argmin of squared distance "
+        "[-1.6,1.6]^2, 64 [256] rays x radii 1e-12,10,1e6} as plain 1-D arrays and once more in the 12 other array presentations "
+        "(all of them per family when cheap, else consecutive blocks rotate through them), 0-d, complex64, "
+        "against brute-force argmin of squared distance "
         "(ties excluded by a margin test); constructors on every integer 0..4100. A case is "
         "non-trivial when the table has >= 2 points; distinct = distinct (kind, M, table digest)")
 
@@ -46,7 +55,7 @@ ENERGY_TOL = 1e-12
 DELTAS = (1e-11, 1e-9, 1e-6, 1e-3, 0.25)
 TANGENT = (0.0, 0.4, -0.4)
 MAX_CARD = 4100
-LIB_CHUNK_ELEMS = 1 << 22     # the library broadcasts M x N complex values per call
+LIB_CHUNK_ELEMS = 1 << 19     # the library broadcasts M x N complex values per call
 
 
 # ----------------------------------------------------------------------
@@ -69,12 +78,21 @@ def units(tier):
             out.append({"kind": "psk", "M": M, "final": j, "level": lev if (th or k <= 8) else 0})
         if k % 2 == 0:
             out.append({"kind": "qam", "M": M, "level": lev if (th or k <= 8) else 0})
-    # the 4096-point table is the heaviest object: its sample family is split in 8 slices
-    for part in range(8):
-        out.append({"kind": "qam", "M": 4 ** 6, "level": lev if th else 0, "part": [part, 8]})
+    # the 4096-point table is the heaviest object: part 0 = table, round trip, invalid indexes and the
+    # constellation points as samples; parts 1..P = the P slices of the other sample families
+    P = 8 if th else 4
+    for part in range(P + 1):
+        out.append({"kind": "qam", "M": 4 ** 6, "level": lev if th else 0, "part": [part, P]})
     for cls in ("PSK", "QAM"):
         for a in range(0, MAX_CARD + 1, 256):
             out.append({"kind": "ctor", "cls": cls, "lo": a, "hi": min(MAX_CARD + 1, a + 256)})
+    # cheapest first (smallest counterexample first); dealing this order round-robin to the shards
+    # also spreads the few heavy units over different shards
+    def cost(u):
+        if u["kind"] == "ctor":
+            return 0
+        return u["M"] ** 2 * len(histories(u)) * (3 if u["level"] else 1)
+    out.sort(key=cost)
     return out
 
 
@@ -141,7 +159,7 @@ def table_geometry(sym):
     k = min(8, M - 1)
     dmin2 = math.inf
     cand = set()
-    rows = max(1, (1 << 22) // M)
+    rows = max(1, (1 << 19) // M)
     for a in range(0, M, rows):
         d2 = sq_dist_matrix(x[a:a + rows], y[a:a + rows], x, y)
         for r in range(d2.shape[0]):
@@ -178,7 +196,7 @@ def nearest(sym, samples):
     idx = np.empty(N, dtype=np.int64)
     best = np.empty(N)
     second = np.full(N, math.inf)
-    rows = max(1, (1 << 22) // M)
+    rows = max(1, (1 << 19) // M)
     for a in range(0, N, rows):
         d2 = sq_dist_matrix(z.real[a:a + rows], z.imag[a:a + rows], cx, cy)
         ar = np.arange(d2.shape[0])
@@ -225,17 +243,21 @@ def sample_family(sym, dmin, pairs, level):
 _ORACLE = {}
 
 
-def oracle_for(sym, level, part=(0, 1)):
-    """part (p, P): every family except the constellation points themselves is
-    restricted to the samples p, p+P, p+2P, ... (the P parts are separate work units)"""
+def oracle_for(sym, level, part=(0, 0)):
+    """part (p, P) of an object split over work units: p = 0 keeps only the constellation
+    points as samples, p >= 1 keeps the samples p-1, p-1+P, p-1+2P, ... of the other
+    families; P = 0: unsplit object, everything"""
     key = (np.ascontiguousarray(sym).tobytes(), str(np.asarray(sym).dtype), level, tuple(part))
     r = _ORACLE.get(key)
     if r is None:
         dmin, pairs = table_geometry(sym)
         fams = []
         for name, z in sample_family(sym, dmin, pairs, level):
-            if name != "points":
-                z = z[part[0]::part[1]]
+            if part[1]:
+                if (name == "points") != (part[0] == 0):
+                    continue
+                if name != "points":
+                    z = z[part[0] - 1::part[1]]
             idx, best, second = nearest(sym, z)
             thr = TIE_REL_DMIN2 * dmin * dmin + TIE_REL_FLOAT * best if np.isfinite(dmin) else 0 * best
             tie = (second - best) < thr
@@ -272,43 +294,144 @@ def table_problem(m, M):
 # ----------------------------------------------------------------------
 # per-object checks
 # ----------------------------------------------------------------------
-def index_forms(M, is_bpsk):
-    """(name, index object, expected shape or None for scalars)"""
-    ar = np.arange(M)
-    forms = [("1d", ar, (M,)), ("int32", ar.astype(np.int32), (M,))]
-    if M >= 2:
-        forms.append(("2d", ar.reshape(2, M // 2), (2, M // 2)))
-        forms.append(("3d", ar.reshape(M // 2, 2, 1), (M // 2, 2, 1)))
+# presentations of one logical 1-D sequence `a` as an array object.  The logical
+# (C-order) ravel of the result is a permutation of `a`; applying the same
+# presentation to np.arange(a.size) gives that permutation, so the oracle can be
+# aligned element by element.  Position must be preserved by modulate/demodulate
+# whatever the memory layout is.
+CONTIGUOUS_FORMS = ("1d", "2d", "3d", "readonly")
+NONCONTIGUOUS_FORMS = ("2d_T", "2d_F", "2d_strided", "2d_neg", "1d_neg", "1d_strided",
+                       "3d_swap", "3d_T", "3d_strided")
+ALL_FORMS = CONTIGUOUS_FORMS + NONCONTIGUOUS_FORMS
+INDEX_DTYPES = ("int8", "uint8", "int16", "uint16", "int32", "uint32", "uint64", "intp")
+
+
+def usable(form, n):
+    if form.startswith("2d"):
+        return n >= 2 and n % 2 == 0
+    if form.startswith("3d"):
+        return n >= 4 and n % 4 == 0
+    return n >= 1
+
+
+def present(a, form):
+    n = a.size
+    if form == "1d":
+        return a
+    if form == "readonly":
+        b = a.copy()
+        b.flags.writeable = False
+        return b
+    if form == "1d_neg":                      # negative stride
+        return a[::-1]
+    if form == "1d_strided":                  # every third element of a larger buffer
+        big = np.zeros(3 * n, dtype=a.dtype)
+        big[::3] = a
+        return big[::3]
+    if form == "2d":
+        return a.reshape(2, n // 2)
+    if form == "2d_T":                        # transposed view (F-contiguous)
+        return a.reshape(n // 2, 2).T
+    if form == "2d_F":                        # Fortran-ordered copy
+        return np.asfortranarray(a.reshape(2, n // 2))
+    if form == "2d_strided":                  # x[:, ::2] of a larger buffer
+        big = np.zeros((2, n), dtype=a.dtype)
+        big[:, ::2] = a.reshape(2, n // 2)
+        return big[:, ::2]
+    if form == "2d_neg":                      # both axes reversed
+        return a.reshape(2, n // 2)[::-1, ::-1]
+    if form == "3d":
+        return a.reshape(n // 4, 2, 2)
+    if form == "3d_swap":                     # swapped axes (neither C nor F contiguous)
+        return a.reshape(n // 4, 2, 2).swapaxes(0, 1)
+    if form == "3d_T":                        # fully transposed (F-contiguous)
+        return a.reshape(n // 4, 2, 2).T
+    if form == "3d_strided":
+        big = np.zeros((n // 4, 2, 4), dtype=a.dtype)
+        big[:, :, ::2] = a.reshape(n // 4, 2, 2)
+        return big[:, :, ::2]
+    raise KeyError(form)
+
+
+def form_class(form):
+    return "noncontiguous" if form in NONCONTIGUOUS_FORMS else "contiguous"
+
+
+def index_sequence(M):
+    """every index 0..M-1 once, in order; for M < 24 followed by an aperiodic (Beatty) tail up to
+    length 24, so that even a 2-point table gets arrays long enough for a layout to matter"""
+    seq = list(range(M))
+    seq += [int((k + 1) * 1.618033988749895) % M for k in range(24 - M)]
+    return np.array(seq, dtype=np.int64)
+
+
+REDUCED_INDEX_FORMS = ("1d", "readonly", "2d_T", "2d_strided", "1d_neg", "3d_swap")
+REDUCED_INDEX_DTYPES = ("int32", "uint16", "uint64")
+
+
+def index_forms(M, is_bpsk, reduced=False):
+    """(name, class, index object, expected shape); `reduced` (quick tier, M >= 512): one or two
+    members of every presentation class instead of all of them"""
+    ar = index_sequence(M)
+    n = ar.size
+    forms = []
+    for f in (REDUCED_INDEX_FORMS if reduced else ALL_FORMS):
+        if usable(f, n):
+            x = present(ar, f)
+            forms.append((f, form_class(f), x, x.shape))
+    if M >= 2 and not reduced:
+        forms.append(("3d_col", "contiguous", ar.reshape(n // 2, 2, 1), (n // 2, 2, 1)))
+    for dt in (REDUCED_INDEX_DTYPES if reduced else INDEX_DTYPES):
+        if M - 1 <= np.iinfo(dt).max:
+            forms.append((dt, "dtype_" + ("unsigned" if dt.startswith("u") else "signed"), ar.astype(dt), (n,)))
+    if usable("2d_T", n):
+        forms.append(("int16_2d_T", "noncontiguous", present(ar.astype(np.int16), "2d_T"), (2, n // 2)))
+    for shp in ((0,), (0, 2), (2, 0)):
+        forms.append(("empty%r" % (shp,), "empty", np.zeros(shp, dtype=int), shp))
     if not is_bpsk:        # BPSK.modulate documents np.ndarray only (list > 1 is a TypeError)
-        forms.append(("pylist", [int(v) for v in ar], (M,)))
+        forms.append(("pylist", "pylist", [int(v) for v in ar], (n,)))
+        if M >= 2 and not reduced:
+            forms.append(("pylist_2d", "pylist", ar.reshape(2, n // 2).tolist(), (2, n // 2)))
     return forms
 
 
 def check_roundtrip(chk, lab, m, M, spec):
     sym = np.asarray(m.symbols)
     is_bpsk = lab == "bpsk"
-    for name, idx, shape in index_forms(M, is_bpsk):
+    for name, cls, idx, shape in index_forms(M, is_bpsk, reduced=(spec.get("level", 1) == 0)):
         case = dict(spec, what="roundtrip", form=name)
-        with chk.guard(("roundtrip", lab, name), case):
+        chk.outcome("index_presentation", name)
+        with chk.guard(("roundtrip", lab, cls), case):
+            ref = np.array(idx, dtype=np.int64).reshape(shape)      # logical content, own copy
             tx = m.modulate(idx)
-            chk.count("eval_roundtrip_indexes", M)
-            want = sym[np.asarray(idx)]
+            chk.count("eval_roundtrip_indexes", int(ref.size))
+            want = sym[ref]
             if np.shape(tx) != shape or not np.array_equal(np.asarray(tx), want):
-                chk.fail(("modulate", lab, "not_table_lookup", name), case,
+                w = None
+                if np.shape(tx) == shape:
+                    w = [int(v) for v in np.argwhere(np.asarray(tx) != want)[0]]
+                chk.fail(("modulate", lab, "not_table_lookup", cls), dict(case, first_bad_position=w),
                          observed=np.asarray(tx).ravel()[:4], expected=want.ravel()[:4])
                 continue
-            rx = m.demodulate(np.asarray(tx))
-            ok = (np.shape(rx) == shape and np.asarray(rx).dtype.kind in "iu"
-                  and np.array_equal(np.asarray(rx), np.asarray(idx)))
-            if not ok:
-                bad = None
-                if np.shape(rx) == shape:
-                    w = np.nonzero(np.asarray(rx).ravel() != np.asarray(idx).ravel())[0]
-                    bad = int(np.asarray(idx).ravel()[w[0]]) if w.size else None
-                chk.fail(("roundtrip", lab, "demodulate(modulate(i))!=i", name),
-                         dict(case, first_bad_index=bad),
-                         observed="shape %r dtype %s first wrong index %r"
-                         % (np.shape(rx), np.asarray(rx).dtype, bad), expected="identity, shape %r" % (shape,))
+            # demodulate exactly what modulate returned (it inherits the layout of idx) ...
+            received = [("as_returned", np.asarray(tx))]
+            # ... and the same symbols laid out like the index array was
+            if M <= 256 and isinstance(idx, np.ndarray) and name in ALL_FORMS:
+                received.append(("same_layout", present(sym[index_sequence(M)], name)))
+            for how, rxin in received:
+                rx = m.demodulate(rxin)
+                ok = (np.shape(rx) == shape and np.asarray(rx).dtype.kind in "iu"
+                      and np.array_equal(np.asarray(rx), ref))
+                if not ok:
+                    bad = None
+                    if np.shape(rx) == shape:
+                        w = np.argwhere(np.asarray(rx) != ref)
+                        bad = [int(v) for v in w[0]] if w.size else None
+                    chk.fail(("roundtrip", lab, "demodulate(modulate(i))!=i", cls),
+                             dict(case, first_bad_position=bad, received=how),
+                             observed="shape %r dtype %s first wrong position %r"
+                             % (np.shape(rx), np.asarray(rx).dtype, bad), expected="identity, shape %r" % (shape,))
+                    break
     # scalars: every index as 0-d array, numpy integer scalar and Python int
     case = dict(spec, what="roundtrip", form="scalars")
     with chk.guard(("roundtrip", lab, "scalars"), case):
@@ -354,66 +477,98 @@ def check_invalid_indexes(chk, lab, m, M, spec):
 
 
 def lib_demodulate(m, z, form):
-    """call the implementation on the samples `z` (1-D complex) presented in the
-    given form; returns a flat integer array"""
+    """call the implementation on the samples `z` (1-D) presented in the given
+    form; returns a flat integer array aligned with z (whatever the layout of
+    the presented array, decision k belongs to sample k)"""
     if form == "0d":
         return np.array([int(m.demodulate(np.array(v))) for v in z], dtype=np.int64)
     M = max(1, int(np.asarray(m.symbols).size))
-    step = max(2, (LIB_CHUNK_ELEMS // M) & ~1)
-    out = np.empty(z.size, dtype=np.int64)
+    step = max(4, (LIB_CHUNK_ELEMS // M) & ~3)
+    out = np.full(z.size, -1, dtype=np.int64)
     for a in range(0, z.size, step):
         blk = z[a:a + step]
-        if form == "2d" and blk.size % 2 == 0 and blk.size:
-            r = m.demodulate(blk.reshape(2, blk.size // 2))
-            if np.shape(r) != (2, blk.size // 2):
-                raise AssertionError("demodulate changed the shape: %r -> %r"
-                                     % ((2, blk.size // 2), np.shape(r)))
-        else:
-            r = m.demodulate(blk)
-            if np.shape(r) != blk.shape:
-                raise AssertionError("demodulate changed the shape: %r -> %r" % (blk.shape, np.shape(r)))
+        f = form
+        if not usable(f, blk.size):
+            # the tail that does not fill the shape is presented with the 1-D relative of the form
+            keep = blk.size - blk.size % 4
+            if keep and usable(f, keep):
+                out[a:a + keep] = lib_demodulate(m, blk[:keep], f)
+                blk, a = blk[keep:], a + keep
+            f = "1d_neg" if form in NONCONTIGUOUS_FORMS else "1d"
+            if blk.size == 0:
+                continue
+        arr = present(blk, f)
+        pos = present(np.arange(blk.size), f)
+        r = m.demodulate(arr)
+        if np.shape(r) != arr.shape:
+            raise AssertionError("demodulate changed the shape: %r -> %r" % (arr.shape, np.shape(r)))
         r = np.asarray(r)
         if r.dtype.kind not in "iu":
             raise AssertionError("demodulate returned dtype %s" % r.dtype)
-        out[a:a + step] = r.ravel()
+        o = np.empty(blk.size, dtype=np.int64)
+        o[np.array(pos).ravel()] = np.array(r).ravel()
+        out[a:a + blk.size] = o
     return out
 
 
-def compare_detection(chk, lab, m, sym, spec, family, form, z, idx, best, thr, tie, real_input=False):
-    """library decisions on samples z against the oracle decisions"""
+def compare_detection(chk, lab, m, sym, spec, family, form, z, idx, best, thr, tie, real_input=False,
+                      plain_ok=None, sample_dtype=None):
+    """library decisions on samples z against the oracle decisions; returns True
+    when every decided sample got the oracle's index.  `plain_ok` tells whether the
+    plain 1-D presentation of the same family was entirely right (then a failure
+    of another presentation is a position/layout defect, not a detection defect)."""
     M = sym.size
     zin = z.real.copy() if real_input else z
+    if sample_dtype is not None:
+        zin = zin.astype(sample_dtype)
     got = lib_demodulate(m, zin, form)
     chk.count("eval_demod_samples", int(z.size))
     base = dict(spec, what="demodulate", family=family, form=form, real_input=bool(real_input))
+    if sample_dtype is not None:
+        base["sample_dtype"] = sample_dtype
     rng_bad = np.nonzero((got < 0) | (got >= M))[0]
     if rng_bad.size:
         n = int(rng_bad[0])
         chk.fail(("demodulate", lab, "index_out_of_range"), dict(base, sample=complex(z[n])),
                  observed=int(got[n]), expected="in [0,%d)" % M)
-        return
+        return False
+    ok = True
     wrong = np.nonzero((got != idx) & ~tie)[0]
     if wrong.size:
+        ok = False
         n = int(wrong[0])
-        chk.fail(("demodulate", lab, "not_nearest", "near_boundary" if family == "boundary" else "interior"), dict(base, sample=complex(z[n])),
-                 observed="index %d at squared distance %r" % (int(got[n]),
-                                                                abs(complex(sym[got[n]]) - complex(z[n])) ** 2),
-                 expected="index %d at squared distance %r" % (int(idx[n]), float(best[n])),
-                 msg="%d of %d samples of this family/form" % (wrong.size, z.size))
+        obs = "index %d at squared distance %r" % (int(got[n]), abs(complex(sym[got[n]]) - complex(z[n])) ** 2)
+        exp = "index %d at squared distance %r" % (int(idx[n]), float(best[n]))
+        note = "%d of %d samples of this family/form" % (wrong.size, z.size)
+        if plain_ok and form not in ("1d", "0d"):
+            # no "sample" key: the replay re-runs the whole object (a single sample has no layout)
+            chk.fail(("demodulate", lab, "decisions_misplaced", form_class(form) + "_array"),
+                     dict(base, what="demodulate_layout", position_in_family=n, samples=int(z.size)),
+                     observed=obs, expected=exp,
+                     msg=note + "; the plain 1-D presentation of the same samples was decided correctly")
+        else:
+            chk.fail(("demodulate", lab, "not_nearest", "near_boundary" if family == "boundary" else "interior"),
+                     dict(base, sample=complex(z[n])), observed=obs, expected=exp, msg=note)
     t = np.nonzero(tie)[0]
-    if t.size:
+    if t.size and not (plain_ok and form not in ("1d", "0d") and not ok):
         c = sym.astype(complex)[got[t]]
         d2 = (c.real - z.real[t]) ** 2 + (c.imag - z.imag[t]) ** 2
         far = np.nonzero(d2 > best[t] + 2 * thr[t])[0]
         if far.size:
+            ok = False
             n = int(t[far[0]])
             chk.fail(("demodulate", lab, "tie_resolved_to_far_point"),
                      dict(base, sample=complex(z[n])), observed=int(got[n]), expected=int(idx[n]))
+    return ok
+
+
+DETECTION_FORMS = tuple(f for f in ALL_FORMS if f != "1d")
 
 
 def check_detection(chk, lab, m, M, spec, level):
     sym = np.asarray(m.symbols)
-    dmin, pairs, fams = oracle_for(sym, level, tuple(spec.get("part", (0, 1))))
+    part = tuple(spec.get("part", (0, 0)))
+    dmin, pairs, fams = oracle_for(sym, level, part)
     # non-vacuity is measured on the oracle side, before the implementation is consulted
     hit = set()
     for family, z, idx, best, thr, tie in fams:
@@ -421,25 +576,58 @@ def check_detection(chk, lab, m, M, spec, level):
         chk.count("excluded_ties_" + family, int(tie.sum()))
         if family == "boundary":
             chk.count("near_boundary_samples_decided", int((~tie).sum()))
-    chk.outcome("regions_hit", (spec["kind"], M, len(hit)))
     chk.outcome("adjacent_pairs", (spec["kind"], M, int(len(pairs))))
-    if len(hit) != M:
-        chk.count("vacuity_regions_not_all_hit")
+    if part[0] == 0:
+        chk.outcome("regions_hit", (spec["kind"], M, len(hit)))
+        if len(hit) != M:
+            chk.count("vacuity_regions_not_all_hit")
     for family, z, idx, best, thr, tie in fams:
         with chk.guard(("demodulate", lab), dict(spec, what="object", family=family)):
-            forms = ["1d", "2d"] if (level >= 1 or family == "points") else ["1d"]
-            for form in forms:
-                compare_detection(chk, lab, m, sym, spec, family, form, z, idx, best, thr, tie)
+            # pass 1: every sample as a plain 1-D array
+            plain = compare_detection(chk, lab, m, sym, spec, family, "1d", z, idx, best, thr, tie)
+            # pass 2: every sample once more, in every other presentation when that is cheap,
+            # otherwise the family is cut in consecutive blocks and block k uses presentation k
+            n = z.size
+            nf = len(DETECTION_FORMS)
+            if n * M * nf <= (1 << 22):
+                plan = [(f, 0, n) for f in DETECTION_FORMS]
+            else:
+                blk = -(-n // nf)
+                blk += (-blk) % 4
+                plan = [(DETECTION_FORMS[k % nf], a, min(n, a + blk)) for k, a in enumerate(range(0, n, blk))]
+            for form, a, b in plan:
+                chk.outcome("sample_presentation", form)
+                compare_detection(chk, lab, m, sym, spec, family, form, z[a:b], idx[a:b], best[a:b],
+                                  thr[a:b], tie[a:b], plain_ok=plain)
             # 0-d presentation: the first and last 8 samples of the family
             sel = np.unique(np.concatenate([np.arange(min(8, z.size)), np.arange(max(0, z.size - 8), z.size)]))
             compare_detection(chk, lab, m, sym, spec, family, "0d", z[sel], idx[sel], best[sel], thr[sel], tie[sel])
+            # empty inputs keep their shape
+            for shp in ((0,), (0, 3), (2, 0)):
+                r = m.demodulate(np.zeros(shp, dtype=complex))
+                if np.shape(r) != shp or np.asarray(r).dtype.kind not in "iu":
+                    chk.fail(("demodulate", lab, "empty_input"), dict(spec, what="object", shape=list(shp)),
+                             observed="shape %r dtype %s" % (np.shape(r), np.asarray(r).dtype),
+                             expected="empty integer array of shape %r" % (shp,))
+            # single-precision samples: the samples ARE the rounded values -> own oracle run
+            if family != "boundary" and level >= 1:
+                z32 = z.astype(np.complex64).astype(complex)
+                i2, b2, s2 = nearest(sym, z32)
+                th2 = TIE_REL_DMIN2 * dmin * dmin + TIE_REL_FLOAT * b2
+                ok32 = compare_detection(chk, lab, m, sym, spec, family, "1d", z32, i2, b2, th2, (s2 - b2) < th2,
+                                         sample_dtype="complex64")
+                compare_detection(chk, lab, m, sym, spec, family, "2d_T", z32, i2, b2, th2, (s2 - b2) < th2,
+                                  sample_dtype="complex64", plain_ok=ok32)
             if lab == "bpsk":
                 # real-dtype input: the real parts alone (imaginary part dropped -> own oracle run)
-                zr = z.real + 0j
-                i2, b2, s2 = nearest(sym, zr)
-                th2 = TIE_REL_DMIN2 * dmin * dmin + TIE_REL_FLOAT * b2
-                compare_detection(chk, lab, m, sym, spec, family, "1d", zr, i2, b2, th2, (s2 - b2) < th2,
-                                  real_input=True)
+                for dt in ("float64", "float32"):
+                    zr = z.real.astype(dt).astype(float) + 0j
+                    i2, b2, s2 = nearest(sym, zr)
+                    th2 = TIE_REL_DMIN2 * dmin * dmin + TIE_REL_FLOAT * b2
+                    okr = compare_detection(chk, lab, m, sym, spec, family, "1d", zr, i2, b2, th2, (s2 - b2) < th2,
+                                            real_input=True, sample_dtype=dt)
+                    compare_detection(chk, lab, m, sym, spec, family, "2d_T", zr, i2, b2, th2, (s2 - b2) < th2,
+                                      real_input=True, sample_dtype=dt, plain_ok=okr)
     return dmin
 
 
@@ -523,19 +711,25 @@ def main(chk: Check):
     chk.assume("boundary probes use the Gabriel-adjacent pairs (midpoint in the interior of the common "
                "Voronoi edge) among the 8 nearest neighbours of every point; for PSK and square QAM "
                "these are all pairs sharing a Voronoi edge")
-    chk.assume("index inputs: numpy integer arrays/scalars and Python ints, plus Python lists for the "
-               "table-lookup modulators (BPSK.modulate documents np.ndarray and evaluates `list > 1`); "
-               "negative indexes are outside the property (documented as unchecked)")
+    chk.assume("index inputs: numpy integer arrays/scalars of every integer dtype and Python ints, plus "
+               "(nested) Python lists for the table-lookup modulators (BPSK.modulate documents np.ndarray and "
+               "evaluates `list > 1`); tuples (numpy reads them as multi-axis indexes), boolean masks and "
+               "negative indexes are outside the property")
+    chk.assume("for tables with fewer than 24 points the index arrays are 0..M-1 followed by an aperiodic tail "
+               "up to length 24, so that memory layout matters even for BPSK")
+    chk.extra["array_presentations"] = list(ALL_FORMS) + ["0d", "empty"]
+    chk.extra["index_dtypes"] = list(INDEX_DTYPES)
     chk.extra["tie_margin_rel_dmin2"] = TIE_REL_DMIN2
     chk.extra["tie_margin_rel_float"] = TIE_REL_FLOAT
     chk.extra["energy_tolerance"] = ENERGY_TOL
     chk.extra["cardinalities_scanned"] = "0..%d for PSK and QAM" % MAX_CARD
     if chk.tier != "thorough":
         chk.extra["quick_tier_bound"] = ("PSK 512/1024 and QAM 1024/4096: constellation points and "
-                                         "boundary probes (no tangential shifts, 1-D presentation) only, "
-                                         "setPhaseOffset from 2 of the 8 initial offsets; lattice, rays, "
-                                         "2-D boundary probes and all 8x8 offset histories for PSK <= 256, "
-                                         "QAM <= 256; the thorough tier has no such restriction")
+                                         "boundary probes (no tangential shifts) only, setPhaseOffset from 2 of "
+                                         "the 8 initial offsets, one or two index presentations per class, no "
+                                         "complex64 samples; lattice, rays, every presentation and all 8x8 "
+                                         "offset histories for PSK <= 256, QAM <= 256; the thorough tier has "
+                                         "no such restriction")
 
     def worker(i, n, c):
         for u in shard(units(c.tier), i, n):
@@ -552,6 +746,8 @@ def main(chk: Check):
     chk.require_outcomes("regions_hit", 18)
     chk.require_outcomes("ctor", 4)
     chk.require_outcomes("invalid_index", 12)
+    chk.require_outcomes("index_presentation", 25)
+    chk.require_outcomes("sample_presentation", len(DETECTION_FORMS))
     if not chk.counters.get("near_boundary_samples_decided"):
         raise Broken("vacuous: no decided near-boundary sample")
 
@@ -580,6 +776,6 @@ def replay(case, chk: Check):
             form = case.get("form", "1d")
             compare_detection(chk, lab, m, sym, spec, case.get("family", "points"),
                               "0d" if form == "0d" else "1d", z, idx, best, thr, (second - best) < thr,
-                              real_input=bool(case.get("real_input")))
+                              real_input=bool(case.get("real_input")), sample_dtype=case.get("sample_dtype"))
         return
     check_object(chk, u, hist)
